@@ -214,7 +214,7 @@ PROPS = {
         ],
     },
     "C17": {
-        "level_text": "chunking_independent (what the persistent-decoder codec delivers depends only on the concatenation of the reads) and stream_exactly_once (for every sequence of framed messages and every chunking, exactly the written messages, in order), locked_writers_do_not_interleave, ws_one_message_per_frame are Lean theorems about the byte-level reader model, by induction over unbounded streams; per_message_reader_counterexample keeps the witness of the repaired defect. The model is compared with the real IOCodec on byte streams produced by the real WriteMessage and cut at generated positions; gorilla (concurrent writers) and gobwas codecs are run over loopback WebSocket connections. WebSocket runs include encoded lengths walking byte by byte across the decoder's refill sizes and runs in which one library writes and the other reads.",
+        "level_text": "chunking_independent (what the persistent-decoder codec delivers depends only on the concatenation of the reads) and stream_exactly_once (for every sequence of framed messages and every chunking, exactly the written messages, in order), locked_writers_do_not_interleave, ws_one_message_per_frame, http_body_one_message (a request or reply body of the HTTP transport, announced length or chunked in any way) are Lean theorems about the byte-level reader model, by induction over unbounded streams; per_message_reader_counterexample keeps the witness of the repaired defect. The model is compared with the real IOCodec on byte streams produced by the real WriteMessage and cut at generated positions; gorilla (concurrent writers) and gobwas codecs are run over loopback WebSocket connections. WebSocket runs include encoded lengths walking byte by byte across the decoder's refill sizes and runs in which one library writes and the other reads.",
         "level_note": "Theorems are about Model/Codec.lean (brace depth outside string literals, escapes); that encoding/json's decoder finds the same message ends is checked differentially on generated messages (braces/escapes/unicode inside strings, nested params, 0 to 5000-byte payloads). Trusted: encoding/json, gorilla/gobwas framing, the write mutex of the gorilla codec (supported by -race runs of the concurrent writer stream in the thorough tier).",
         "lean_modules": ["Vipnode.Props.C17"],
         "streams": [
@@ -225,7 +225,7 @@ PROPS = {
         "monitor": monitors.c17_codec,
     },
     "C19": {
-        "level_text": "advertised_id, foreign_id_refused, advertised_address, undetermined_refused and the IPv4/IPv6/DNS round trip join_split / host_port_roundtrip (SplitHostPort(JoinHostPort(h,p)) = (h,p) for every bracket-free host and colon-free port, by induction over the strings) are Lean theorems about normalizeNodeURI on structured overrides; the real normalizeNodeURI is run on generated override strings (other ids, empty user, user:password, missing/unspecified hosts, IPv6 literals and zones, ports, paths, queries, other schemes, unparsable) x source addresses, its result parsed back with ethnode.ParseNodeURI and net.SplitHostPort; registration through the real connect with a generated RemoteAddr is part of the pool streams.",
+        "level_text": "advertised_id, foreign_id_refused, advertised_address, undetermined_refused and the IPv4/IPv6/DNS round trip join_split / host_port_roundtrip (SplitHostPort(JoinHostPort(h,p)) = (h,p) for every bracket-free host and colon-free port, by induction over the strings) are Lean theorems about normalizeNodeURI on structured overrides; keepalive_keeps_registration / keepalive_keeps_uri (a keep-alive changes nothing of a node's record but the check-in and the block number: the URI of the latest registration is what is stored, across any keep-alives; conc noderace races the two on the real drivers); the real normalizeNodeURI is run on generated override strings (other ids, empty user, user:password, missing/unspecified hosts, IPv6 literals and zones, ports, paths, queries, other schemes, unparsable) x source addresses, its result parsed back with ethnode.ParseNodeURI and net.SplitHostPort; registration through the real connect with a generated RemoteAddr is part of the pool streams.",
         "level_note": "Theorems are about Model/NodeURI.lean; net/url parsing is not re-implemented: the model receives what url.Parse yields for the override (hostname, port, user), observed by the harness. Trusted: net/url, net.SplitHostPort (modelled as splitHostPortL for the round-trip theorem and compared on every case).",
         "lean_modules": ["Vipnode.Props.C19"],
         "monitor": monitors.c19_advertised,
